@@ -194,10 +194,14 @@ theorem waitReady_spi (arg n : Nat) : SpiStrict (waitReady (recBus B) arg n) := 
     unfold waitReady
     exact waitReadyStep_spi B arg _ (fun k hk => by cases hk; exact ih)
 
-theorem write_spi (blocks : List Bytes) (idx : Nat) : SpiStrict (write (recBus B) blocks idx) := by
+theorem stopWrite_spi : SpiStrict (stopWrite (recBus B)) := by
+  unfold stopWrite
+  spi_tac [waitNotBusy_spi B _, writeByte_spi B _, readByte_spi B]
+
+/-- A single-block write reports any SPI error as `Transport`. -/
+theorem write1_spi (b : Bytes) (idx : Nat) : SpiStrict (write (recBus B) [b] idx) := by
   unfold write
-  spi_tac [cardCommand_spi B _ _, cardAcmd_spi B _ _, waitNotBusy_spi B _, writeData_spi B _ _,
-    writeBlocks_spi B _, readByte_spi B, writeByte_spi B _]
+  spi_tac [cardCommand_spi B _ _, waitNotBusy_spi B _, writeData_spi B _ _, readByte_spi B]
 
 theorem readCsd_spi : SpiStrict (readCsd (recBus B)) := by
   unfold readCsd
@@ -361,6 +365,32 @@ theorem read_spiWeak (n idx : Nat) : SpiWeak (Sd.read (recBus B) n idx) := by
       | err e => exact (SpiStrict.fail e).weak
       | panic p => exact absurd rfl (ht p)
 
+/-- A `write` of any number of blocks reports any SPI error as an error.  (A multiple-block write
+whose block loop failed with an error of its own and whose stop sequence then hit an SPI error
+returns the loop's error, as the multiple-block read does.) -/
+theorem write_spiWeak (blocks : List Bytes) (idx : Nat) : SpiWeak (write (recBus B) blocks idx) := by
+  unfold write
+  refine SpiWeak.bind SpiStrict.get.weak fun s => SpiWeak.bind (SpiStrict.lift _).weak fun start => ?_
+  split
+  · refine SpiStrict.weak ?_
+    spi_tac [cardCommand_spi B _ _, waitNotBusy_spi B _, writeData_spi B _ _, readByte_spi B]
+  · refine SpiWeak.bind (cardAcmd_spi B _ _).weak fun _ => SpiWeak.bind (waitNotBusy_spi B _).weak fun _ =>
+      SpiWeak.bind (cardCommand_spi B _ _).weak fun _ => ?_
+    refine SpiWeak.attempt_bind (writeBlocks_spi B _).weak (writeBlocks_nopanic _ _) (fun r hr => ?_)
+      (fun e s => ⟨e, by simp⟩)
+    cases r with
+    | panic q => exact absurd rfl (hr q)
+    | err e =>
+      exact SpiWeak.attempt_bind (stopWrite_spi B).weak (stopWrite_nopanic _)
+        (fun t _ => (SpiStrict.fail e).weak) (fun e' s => ⟨e, by simp⟩)
+    | ok u =>
+      refine SpiWeak.attempt_bind (stopWrite_spi B).weak (stopWrite_nopanic _)
+        (fun t ht => ?_) (fun e' s => ⟨e', by simp⟩)
+      cases t with
+      | ok g => exact (SpiStrict.pure _).weak
+      | err e => exact (SpiStrict.fail e).weak
+      | panic p => exact absurd rfl (ht p)
+
 theorem read1_spi (idx : Nat) : SpiStrict (Sd.read (recBus B) 1 idx) := by
   unfold Sd.read
   simp only [↓reduceIte]
@@ -374,7 +404,7 @@ theorem call_spiWeak (c : Call) (hc : c ≠ .cardType) : SpiWeak (call (recBus B
     exact SpiWeak.bind (checkInit_spiWeak B) fun _ => SpiWeak.bind (read_spiWeak B _ _) fun _ => (SpiStrict.pure _).weak
   | write blocks idx =>
     unfold call
-    exact SpiWeak.bind (checkInit_spiWeak B) fun _ => SpiWeak.bind (write_spi B _ _).weak fun _ => (SpiStrict.pure _).weak
+    exact SpiWeak.bind (checkInit_spiWeak B) fun _ => SpiWeak.bind (write_spiWeak B _ _) fun _ => (SpiStrict.pure _).weak
   | numBlocks =>
     unfold call
     exact SpiWeak.bind (checkInit_spiWeak B) fun _ => SpiWeak.bind (numBlocks_spi B).weak fun _ => (SpiStrict.pure _).weak
